@@ -62,6 +62,10 @@ def run(ctx):
     sites = [(n, '') for n, cal in ctx.E.callees(f) if cal in appenders] + \
         [(e.node, '') for e in ctx.E.primitives(f) if e.kind in ('WRITE-PATH',)]
     d4_iterable(ctx, f, sites)                      # D6
+    # D7: access-mode changes take effect — the opener reads the handle's current mode on every open (shared with C12)
+    from ..escape import find_opener
+    from ._shared import opener_default_mode
+    opener_default_mode(ctx, 'D7', find_opener(ctx)[0])
 
 
 def d2_no_truncating_open(ctx, c):
